@@ -27,6 +27,15 @@ def fregOf (r : RegionId) : Gen.PlanSelectFn.FixRegion := ⟨join500kDr r, datar
 def JcWF (j : Gen.PlanSelectFn.JoinChannels) : Prop :=
   0 ≤ j.max_retries ∧ 0 ≤ j.num_retries ∧ 0 ≤ j.previous_channel ∧ j.previous_channel ≤ 255
 
+/-- a test spelt `>=` with the arms swapped (a harmless rewrite of the source) -/
+theorem ite_ge_swap {α} (c n : Int) (A B : α) :
+    (if decide (c ≥ n) = true then A else B) = (if decide (c < n) = true then B else A) := by
+  by_cases h : c < n
+  · have : ¬ c ≥ n := by omega
+    simp [h, this]
+  · have : c ≥ n := by omega
+    simp [h, this]
+
 /-- `has_bias_and_not_exhausted` -/
 theorem tieA_has_bias_and_not_exhausted (j : Gen.PlanSelectFn.JoinChannels) (hj : JcWF j) :
     Gen.PlanSelectFn.JoinChannels.has_bias_and_not_exhausted j = (jcOf j).hasBiasAndNotExhausted := by
@@ -39,7 +48,9 @@ theorem tieA_has_bias_and_not_exhausted (j : Gen.PlanSelectFn.JoinChannels) (hj 
     · simp [h]
     · have : j.num_retries.toNat ≠ 0 := by omega
       simp [h, this]
-  simp only [e1, e2, Option.isSome_map]
+  simp only [e1, e2, Option.isSome_map] <;>
+    (cases j.preferred_subband.isSome <;> cases decide (j.num_retries.toNat < j.max_retries.toNat) <;>
+      cases (j.num_retries.toNat != 0) <;> rfl)
 
 /-- `clear_join_bias` -/
 theorem tieA_clear_join_bias (j : Gen.PlanSelectFn.JoinChannels) :
@@ -73,7 +84,7 @@ theorem tieA_first_data_channel {σ} (g : Rng σ) (j : Gen.PlanSelectFn.JoinChan
   by_cases hc : ((jcOf j).preferredSubband.isSome && (jcOf j).numRetries != 0) = true
   · rw [if_pos hc, if_pos hc]
     have hp : (Gen.PlanSelectFn.JoinChannels.clear_join_bias j).previous_channel = j.previous_channel := rfl
-    simp only [hp, next_rngOf, andI_7, andI_7', Option.bind_eq_bind, Option.pure_def]
+    simp only [hp, next_rngOf, andI_7, andI_7', ite_ge_swap, Option.bind_eq_bind, Option.pure_def]
     have hcb : (jcOf j).clearBias.previousChannel = j.previous_channel.toNat := rfl
     by_cases h64 : j.previous_channel < 64
     · have h64' : j.previous_channel.toNat < 64 := by omega
@@ -85,7 +96,7 @@ theorem tieA_first_data_channel {σ} (g : Rng σ) (j : Gen.PlanSelectFn.JoinChan
       · intro c hc; cases hc; omega
       · exact ⟨Int.le_refl 0, h2, h3, h4⟩
     · have h64' : ¬ j.previous_channel.toNat < 64 := by omega
-      simp only [h64, decide_false, Bool.false_eq_true, if_false, rem8_u8 _ h3 h4, Option.bind_some, hcb, h64']
+      simp only [h64, decide_false, Bool.false_eq_true, if_false, rem8_u8 _ h3 h4, and7 _ h3, Option.bind_some, hcb, h64']
       rw [Rt.ck_u8 (by omega) (by omega), Option.bind_some, wrap_u8_nat _ (by omega), Rt.ck_u8 (by omega) (by omega)]
       refine ⟨_, rfl, ?_, ?_, ?_, rfl⟩
       · simp only [Option.map_some, tieA_clear_join_bias]
@@ -170,7 +181,7 @@ theorem tieA_fixed_select_join_partial {σ} (g : Rng σ) (ops : Gen.PlanSelectFn
           simp [h, h']
         · have h' : ¬ c.toNat < 64 := by omega
           simp [h, h', fregOf]
-      simp only [Option.bind_some, hdr, bind, Except.bind, pure, Except.pure]
+      simp only [Option.bind_some, ite_ge_swap, hdr, bind, Except.bind, pure, Except.pure]
       generalize (if c.toNat < 64 then DR._0 else join500kDr rs.id) = drc
       rw [show (fregOf rs.id).datarates = datarates rs.id from rfl, show (fregOf rs.id).uplink_channels = uplinkChannels rs.id from rfl,
         show (fregOf rs.id).downlink_channels = downlinkChannels rs.id from rfl,
